@@ -1,5 +1,5 @@
 #!/bin/bash
-# tools/seedcheck.sh <ID> [tier]  - take the seeded change from /tmp/wt/<ID>/SEED (or /verif/seeded/<ID>), confirm it in a scratch worktree
+# tools/seedcheck.sh <ID> [tier] [variant]  - take the seeded change from /tmp/wt/<ID>/SEED if a sub-agent just left one there (else /verif/seeded/<ID><variant>), confirm it in a scratch worktree
 # (demo passes without / fails with the change, pinned test-suite unchanged), then run ./vcheck <ID> against /repo with the change applied
 # and undo it straight afterwards.  Nothing is ever committed to /repo.
 set -u
@@ -16,7 +16,7 @@ mkdir -p $W/SEED; cp $DST/demo.py $W/SEED/
 ( cd $W && git apply $DST/patch.diff ) || { echo "patch does not apply"; git -C /repo worktree remove --force $W; exit 2; }
 ( cd $W && /venv/bin/python SEED/demo.py >/tmp/seed_$ID.seeded 2>&1 ); rc_seeded=$?
 ( cd $W && /venv/bin/python -m pytest -q -p no:cacheprovider --timeout=900 2>&1 | grep -E '^FAILED' | sed 's/ - .*//' | sort > /tmp/seed_$ID.failed )
-if diff -q /tmp/wt/BASELINE_FAILED.txt /tmp/seed_$ID.failed >/dev/null; then tests=same; else tests=DIFFERENT; fi
+if diff -q $V/tools/baseline_failed.txt /tmp/seed_$ID.failed >/dev/null; then tests=same; else tests=DIFFERENT; fi
 git -C /repo worktree remove --force $W; rm -rf $W
 echo "$ID demo clean rc=$rc_clean seeded rc=$rc_seeded tests=$tests"
 # now the check against /repo with the change applied
